@@ -27,7 +27,7 @@ ASSUMPTIONS = [
     "default on an AnyField (the caller's object is handed out like a mutable default argument) and mutable items "
     "nested inside an untyped container default (only the container is copied) are not mutated by the harness",
 ]
-REQUIRED = ["include-load", "serialize", "cross-assign+edit", "cross-assign+edit:list", "cross-assign+edit:dict", "observer:before", "observer:middle", "observer:after", "inplace:typed", "inplace:untyped", "shared-item-type", "dynamic-add"]
+REQUIRED = ["filled-from-tree", "include-load", "serialize", "cross-assign+edit", "cross-assign+edit:list", "cross-assign+edit:dict", "observer:before", "observer:middle", "observer:after", "inplace:typed", "inplace:untyped", "shared-item-type", "dynamic-add"]
 LEVEL_TEXT = (
     "Generated schemas and histories on one instance with an untouched observer instance and a frozen schema "
     "snapshot as oracle; kills mutants that stop copying default containers, register dynamic fields on the "
@@ -347,6 +347,55 @@ def run_case(case, R):
                                lambda: "A took over C's %s and edited its own value in place; C changed: %s" % (".".join(path), worlds.diff(csnap, now))):
                     csnap = now
             observers.append((c, csnap))
+
+        # a further configuration is filled from A's own tree (to_tree -> load_tree, no document in between); after that,
+        # in-place edits of A's untyped lists / dicts must not show in it, nor the other way round
+        try:
+            e = world.schema(key_filename=keyfile)
+            e.load_tree(state["cfg"].to_tree())
+        except Exception:
+            e = None
+        if e is not None:
+            R.label("filled-from-tree")
+            esnap = worlds.snapshot(e, cc)
+            for path, node in leaves:
+                # (list / dict fields render a container of their own; an AnyField hands out the very object it was given,
+                #  so a caller who feeds that into another configuration has made the alias himself)
+                if node["kind"] not in ("list", "dict"):
+                    continue
+                mine = worlds.get_path(state["cfg"], path)
+                try:
+                    if isinstance(mine, list):
+                        mine.append(mine[0] if mine else 0)
+                    elif isinstance(mine, dict):
+                        mine["zz-edited-in-place"] = 1
+                    else:
+                        continue
+                except Exception:
+                    continue
+                inplace = True
+                now = worlds.snapshot(e, cc)
+                if not R.check(now == esnap, "isolated", "filled-from-tree:" + node["kind"],
+                               lambda: "E was filled from A.to_tree(); an in-place edit of A's %s changed E: %s" % (".".join(path), worlds.diff(esnap, now))):
+                    esnap = now
+            asnap = worlds.snapshot(state["cfg"], cc)
+            for path, node in leaves:
+                if node["kind"] not in ("list", "dict"):
+                    continue
+                theirs = worlds.get_path(e, path)
+                try:
+                    if isinstance(theirs, list):
+                        theirs.append(theirs[0] if theirs else 0)
+                    elif isinstance(theirs, dict):
+                        theirs["zz-edited-in-place-2"] = 1
+                    else:
+                        continue
+                except Exception:
+                    continue
+                now = worlds.snapshot(state["cfg"], cc)
+                if not R.check(now == asnap, "isolated", "filled-from-tree:reverse:" + node["kind"],
+                               lambda: "E was filled from A.to_tree(); an in-place edit of E's %s changed A: %s" % (".".join(path), worlds.diff(asnap, now))):
+                    asnap = now
 
         if when == "after" or not observers:
             b = world.schema(key_filename=keyfile)
